@@ -32,11 +32,9 @@ var errNoPunch = errors.New("punchHole not supported")
 // punchHole, if non-nil, punches a hole in f from offset to offset+size.
 var punchHole func(file *os.File, offset int64, size int64) error
 
-func (s *storage) delete(br blob.Ref) error {
-	meta, err := s.meta(br)
-	if err != nil {
-		return err
-	}
+// delete overwrites the header and the data of br, found at meta in the
+// pack files. Its index row is the caller's business.
+func (s *storage) delete(br blob.Ref, meta blobMeta) error {
 	f, err := os.OpenFile(s.filename(meta.file), os.O_RDWR, 0666)
 	if err != nil {
 		return err
